@@ -88,24 +88,44 @@ theorem deadObjFields (s : SchemaD) (fx : Fixes) : ∀ (fs : List ObjField) (t :
     · exact deadObjFields s fx fs t h p hp
 end
 
-/-- an object literal that skips without an error stands at a position of unknown type -/
-theorem dead_of_quiet (s : SchemaD) (fs : List ObjField) (t : TI) (hb : vocBad s (.value (.obj fs)) t = true)
-    (hs : vocS s (.value (.obj fs)) t = 0) : t.inputType = none := by
+/-- a position whose input type, if known, is not an input object: the fields of an object literal standing there
+    have no type (since /repo a2b8a10 an object literal at a CUSTOM SCALAR position is accepted: it skips without an
+    error at a position of KNOWN type) -/
+def DeadPos (s : SchemaD) (t : TI) : Prop := ∀ it, t.inputType = some it → isInputObject s it.base = false
+
+theorem dead_objField_np (s : SchemaD) (fx : Fixes) (name : String) (t : TI) (h : DeadPos s t) :
+    (tiEnter s (.objField name) t).inputType = none ∧ (tiEnter s (.objField name) t).parentInputType s fx = none := by
   cases hit : t.inputType with
-  | none => rfl
+  | none => exact dead_objField s fx name t hit
   | some it =>
-    exfalso
-    simp only [vocBad, hit, Option.map_some, Bool.not_eq_eq_eq_not, Bool.not_true] at hb
-    simp only [vocS, scalarErrs, checkScalar, hit] at hs
-    by_cases hsc : isScalar s it.base = true
-    · simp only [hsc, Bool.not_true, Bool.false_eq_true, ↓reduceIte] at hs
-      have : parseLiteralFails it.base (.obj fs) = some true := by
-        unfold parseLiteralFails
-        split
-        · congr 1; split <;> simp_all
-        · rfl
-      rw [this] at hs; simp at hs
-    · simp [hsc] at hs
+    have hb := h it hit
+    have h' : TI.peek t.inputStack = some it := hit
+    have e : tiEnter s (.objField name) t = { t with ivdStack := none :: t.ivdStack, inputStack := none :: t.inputStack } := by
+      simp only [tiEnter, TI.enterObjectField, hit, Option.map_some, hb, Bool.false_eq_true, ↓reduceIte]
+    rw [e]
+    constructor
+    · simp [TI.inputType, peek_cons]
+    · simp only [TI.parentInputType, peek_cons2, h']
+      cases it <;> simp_all [Ty.base]
+
+theorem deadObjFields_np (s : SchemaD) (fx : Fixes) : ∀ (fs : List ObjField) (t : TI), DeadPos s t →
+    ∀ p ∈ gnObjFields (tiEnter s) t fs, okT s fx p
+  | [], _, _, p, hp => by rw [gnObjFields] at hp; cases hp
+  | .mk n v :: fs, t, h, p, hp => by
+    rw [gnObjFields, List.mem_append] at hp
+    rcases hp with hp | hp
+    · obtain ⟨d1, d2⟩ := dead_objField_np s fx n t h
+      rw [gnObjField, List.mem_cons] at hp
+      rcases hp with rfl | hp
+      · exact ⟨fun hb => by simp [vocBad] at hb, fun _ => by simp only [vocF, d1, d2]⟩
+      · exact deadValue s fx v _ d1 p hp
+    · exact deadObjFields_np s fx fs t h p hp
+
+/-- an object literal that raises `SkipNode` stands at a position that is not of input-object type -/
+theorem deadPos_of_bad (s : SchemaD) (fs : List ObjField) (t : TI) (hb : vocBad s (.value (.obj fs)) t = true) :
+    DeadPos s t := by
+  intro it hit
+  simpa [vocBad, hit] using hb
 
 private theorem enter_one' (s : SchemaD) (fx : Fixes) (r : Rule) (n : Node) (st : St) :
     enter ⟨s, fx, [r]⟩ n st =
@@ -139,10 +159,17 @@ def ctxValues (s : SchemaD) (fx : Fixes) : Q.CTXQ ⟨s, fx, [.valuesOfCorrectTyp
   enterI _ _ _ _ := trivial
   leaveI _ _ _ _ := trivial
   skipE n st _ _ hb := by
-    rw [enter_one']
     obtain ⟨h1, h2⟩ := voc_enter s fx n (tiEnter s n st.ti) st.rs
     simp only [hb, ↓reduceIte] at h2
-    exact ⟨by rw [h1]; exact hb, h2⟩
+    have hs : (enter ⟨s, fx, [.valuesOfCorrectType]⟩ n st).2 = true := by rw [enter_one']; rw [h1]; exact hb
+    refine ⟨hs, ?_⟩
+    rw [leaveSkipped_enter_single s fx _ n st hs]
+    exact h2
+  skipI _ _ _ _ _ := trivial
+  skip_ctx n st _ _ hb := by
+    have hs : (enter ⟨s, fx, [.valuesOfCorrectType]⟩ n st).2 = true := by
+      rw [enter_one']; rw [(voc_enter s fx n (tiEnter s n st.ti) st.rs).1]; exact hb
+    rw [leaveSkipped_enter_single s fx _ n st hs]
   noskip n st _ _ hb := by
     rw [enter_one']
     rw [(voc_enter s fx n (tiEnter s n st.ti) st.rs).1]; exact hb
@@ -161,7 +188,7 @@ def ctxValues (s : SchemaD) (fx : Fixes) : Q.CTXQ ⟨s, fx, [.valuesOfCorrectTyp
     | value v => cases v <;> first | rfl | simp [vocBad] at hb
     | _ => simp [vocBad] at hb
   quiet fs x hb hs p hp := by
-    obtain ⟨a, b⟩ := deadObjFields s fx fs x (dead_of_quiet s fs x hb hs) p hp
+    obtain ⟨a, b⟩ := deadObjFields_np s fx fs x (deadPos_of_bad s fs x hb) p hp
     exact ⟨a, fun h => ⟨b h, rfl⟩⟩
 
 theorem okP_ctxValues (s : SchemaD) (fx : Fixes) (p : Node × TI) : Q.okP (ctxValues s fx) p ↔ okT s fx p := by
